@@ -404,13 +404,21 @@ class ControlTheory(Theory):
             if name == "encode":
                 return [(st, EncodedV(val.t))]
             if name == "replace":
-                return [(st, StrV(z3.Function("str_replace_us_dash", S, S)(val.t)))]
+                a_, b_ = (ip.deref(st, x) for x in pos[:2]) if len(pos) >= 2 else (None, None)
+                if len(pos) == 2 and isinstance(a_, StrV) and isinstance(b_, StrV) and a_.lit == "_" and b_.lit == "-":
+                    return [(st, StrV(z3.Function("str_replace_us_dash", S, S)(val.t)))]
+                # any other replacement is a different function of the string (the specs only know `_` -> `-`)
+                tag = "_".join(repr(getattr(x, "lit", None)) for x in (a_, b_))
+                return [(st, StrV(z3.Function("str_replace[" + tag + f"/{len(pos)}]", S, S)(val.t)))]
             if name == "lower":
                 return [(st, StrV(z3.Function("str_lower", S, S)(val.t)))]
             if name == "upper":
                 return [(st, StrV(z3.Function("str_upper", S, S)(val.t)))]
             if name == "startswith":
-                return [(st, BoolV(z3.Function("str_starts_us", S, B)(val.t)))]
+                a_ = ip.deref(st, pos[0]) if pos else None
+                if len(pos) == 1 and isinstance(a_, StrV) and a_.lit == "_":
+                    return [(st, BoolV(z3.Function("str_starts_us", S, B)(val.t)))]
+                return [(st, BoolV(z3.Function("str_startswith[" + repr(getattr(a_, "lit", None)) + "]", S, B)(val.t)))]
         if isinstance(val, BytesV) and name == "decode":
             return [(st, StrV(val.s))]
         if isinstance(val, EncodedV) and name == "decode":
